@@ -123,6 +123,15 @@ M = {
         "            trials = list(sorted(trials.values(), key=lambda t: -t._trial_id))\n            return trials", ["C08"]),
     "grpc-cache-keeps-finished-in-unfinished-set": ("optuna/storages/_grpc/client.py",
         "        study.unfinished_trial_ids.discard(trial._trial_id)", "        pass", ["C08"]),
+    # ---- C09 -------------------------------------------------------------------------------
+    "nsga-unfix-parent-ids": ("optuna/samplers/_ga/_base.py",
+        "                [trial.number for trial in parent_population],", "                [trial._trial_id for trial in parent_population],", ["C09"]),
+    "hyperband-bracket-from-trial-id": ("optuna/pruners/_hyperband.py",
+        "trial.number", "trial._trial_id", ["C09"]),
+    "copy-study-drops-system-attrs": ("optuna/study/study.py",
+        "    for key, value in from_study._storage.get_study_system_attrs(from_study._study_id).items():\n        to_study._storage.set_study_system_attr(to_study._study_id, key, value)\n", "", ["C09"]),
+    "tpe-reads-trials-unsorted": ("optuna/storages/_cached_storage.py",
+        "            trials = list(sorted(trials.values(), key=lambda t: t.number))", "            trials = list(sorted(trials.values(), key=lambda t: (t.state.value, t.number)))", ["C09"]),
     # ---- C05 -------------------------------------------------------------------------------
     "file-unfix-torn-tail": ("optuna/storages/journal/_file.py",
         "            self._drop_unterminated_tail()\n", "", ["C05"]),
